@@ -62,6 +62,8 @@ inline long long val_ll(V v) {
 struct SrcPos { int line = 0; const char *fn = ""; };
 inline SrcPos &src_pos() { static thread_local SrcPos p; return p; }
 inline void (*&access_hook())(const void *, const char *) { static void (*f)(const void *, const char *) = nullptr; return f; }
+// lets a harness add fields to the access event (e.g. the block an address lives in)
+inline void (*&access_decor())(Ev &, const void *, long long) { static void (*f)(Ev &, const void *, long long) = nullptr; return f; }
 
 inline void access_event(const void *addr, const char *kind, int mo, long long val, long long val2, int yield_kind) {
 	if(log_accesses()) {
@@ -69,6 +71,7 @@ inline void access_event(const void *addr, const char *kind, int mo, long long v
 		ev.i("t", tid()).str("op", cur_op()).str("var", vars().of(addr)).str("k", kind).str("mo", mo_name(mo)).i("val", val);
 		if(val2 != -999999) ev.i("new", val2);
 		if(src_pos().line) { ev.str("fn", src_pos().fn).i("line", src_pos().line); src_pos().line = 0; }
+		if(access_decor()) access_decor()(ev, addr, val);
 		ev.emit();
 	}
 	if(access_hook()) access_hook()(addr, kind);
